@@ -142,7 +142,7 @@ def check_case(ctx, case):
 
 
 def run(ctx):
-    for k in range(ctx.n(24, 240)):
+    for k in range(ctx.n(36, 300)):
         check_case(ctx, gen(ctx))
     ctx.lean.flush()
 
